@@ -36,6 +36,7 @@ type evalCtx struct {
 	hoEvents map[string]*Event
 	entryPar bool // parameters denote their entry values (ensures)
 	binders  int  // >0: under a quantifier / definition: no script-level definitions
+	localsSt *State // inside old(): local variables keep their current values
 }
 
 func (fr *Frame) evalCtx(st, old *State, pos token.Pos) *evalCtx {
@@ -300,7 +301,7 @@ func (ec *evalCtx) frameVar(f *Frame, name string) (TV, bool, error) {
 					if _, ok := f.env[a]; ok {
 						chosen = a
 					}
-				} else if ec.st.has(f.cellKey(a)) {
+				} else if ec.st.has(f.cellKey(a)) || (ec.localsSt != nil && ec.localsSt.has(f.cellKey(a))) {
 					chosen = a
 				}
 			}
@@ -320,10 +321,14 @@ func (ec *evalCtx) frameVar(f *Frame, name string) (TV, bool, error) {
 		return TV{T: f.read(l, ec.st), Ty: elem}, true, nil
 	}
 	key := f.cellKey(pick)
-	if !ec.st.has(key) {
+	lst := ec.st
+	if ec.localsSt != nil {
+		lst = ec.localsSt // old(e): locals are not part of the pre-state
+	}
+	if !lst.has(key) {
 		return TV{}, true, fmt.Errorf("local %q is not in scope here", name)
 	}
-	return TV{T: c.get(ec.st, key), Ty: elem}, true, nil
+	return TV{T: c.get(lst, key), Ty: elem}, true, nil
 }
 
 func (ec *evalCtx) object(obj types.Object) (TV, error) {
@@ -892,6 +897,9 @@ func (ec *evalCtx) call(x *CCall) (TV, error) {
 			sub := *ec
 			sub.st = ec.old
 			sub.entryPar = true
+			if ec.localsSt == nil {
+				sub.localsSt = ec.st
+			}
 			return sub.eval(x.Args[0])
 		case "len", "cap":
 			v, err := ec.eval(x.Args[0])
